@@ -520,6 +520,7 @@ func use(b []byte) int {
 	return r.x
 }`, func(fr *core.Result, fprog *core.Program, fpk *packages.Package) { checkNilResults(fr, fprog, fpk) })
 	checkLazyBitAgreement(r, prog, prog.Pkg(""), lp, r.Tier == "thorough")
+	checkLazyDecodeBits(r, prog, prog.Pkg(""), lp)
 	checkLengthDelimitedSlices(r, prog, lp)
 	checkLazyMisc(r, prog, lp)
 	nf2 := checkFoundGuards(r, prog, lp)
